@@ -63,3 +63,20 @@ Ltac finv_by prep HS HF g extra :=
   | conjF prep HS HF g extra | conjF prep HS HF g extra ].
 
 Ltac prj := cbn [k_index k_ordinal k_revision k_target k_change] in *.
+
+(* a consequence used as a hint: no apply is in progress or complete above a failed / aborted one *)
+Lemma failed_blocks g n cm ap a t0 i t :
+  SInv g n cm ap -> FInv g cm ap -> g a = Some t0 -> g i = Some t ->
+  ca t0 = 3 \/ ca t0 = 5 -> ca t = 1 \/ ca t = 2 -> a < i -> False.
+Proof.
+  intros HS HF Ha Hi F P L.
+  assert (D : (ra t0 = 2 \/ ra t0 = 5) \/ (ra t0 <> 2 /\ ra t0 <> 5)) by lia.
+  destruct D as [D | [D1 D2]].
+  - pose proof (b2 _ _ _ HF a t0 Ha D) as B.
+    pose proof (s5 _ _ _ _ HS a t0 Ha (or_intror B)) as S5.
+    pose proof (s1 _ _ _ _ HS) as S1.
+    assert (C : cc t = 2) by (apply (a0 _ _ _ _ HS i t Hi); lia).
+    pose proof (s3a _ _ _ _ HS i t Hi) as X1. pose proof (s3b _ _ _ _ HS i t Hi) as X2.
+    destruct (N.eq_dec i (k_change cm + 1)) as [E|E]; lia.
+  - pose proof (fb _ _ _ HF a t0 i t Ha Hi F D1 D2 L). lia.
+Qed.
